@@ -66,7 +66,39 @@ NONTEXT = {
     'bytearray-empty': lambda: bytearray(), 'memoryview': lambda: memoryview(b'abc'),
     'object': lambda: object(), 'type-str': lambda: str, 'exception': lambda: ValueError('x'),
     'range': lambda: range(3), 'function': lambda: len, 'ellipsis': lambda: Ellipsis,
+    # values that cannot be printed: the TypeError must not depend on rendering the offending value
+    'huge-int': lambda: 10 ** 5000, 'unprintable-object': lambda: _Unprintable(), 'deep-list': lambda: _deep_list(),
+    'duck-text': lambda: _DuckText(),
 }
+
+
+class _Unprintable(object):
+    def __repr__(self):
+        raise AttributeError('repr of the caller\'s object failed')
+    __str__ = __repr__
+
+
+class _DuckText(object):
+    def encode(self, *a, **k):
+        return b'duck'
+
+    def decode(self, *a, **k):
+        return 'duck'
+
+
+def _deep_list():
+    x = []
+    for _ in range(100000):
+        x = [x]
+    return x
+
+
+def _safe_repr(v):
+    try:
+        return repr(v)[:200]
+    except BaseException as e:  # noqa
+        return '<%s whose repr raises %s>' % (type(v).__name__, type(e).__name__)
+
 TYPEERR_VARIANTS = {
     'safe_decode': [{}, {'incoming': 'utf-8'}, {'incoming': 'ascii', 'errors': 'ignore'},
                     {'errors': 'replace'}],
@@ -285,7 +317,7 @@ def eval_typeerr(ctx, case):
     ctx.h('non-text pool', spec)
     got, exc = call(f, value, **kwargs)
     if not isinstance(exc, TypeError):
-        ctx.fail('typeerror-' + fn, case, {'value': repr(value), 'type': type(value).__name__,
+        ctx.fail('typeerror-' + fn, case, {'value': _safe_repr(value), 'type': type(value).__name__,
                                           'kwargs': kwargs, 'got': got, 'exc': exc})
 
 
